@@ -33,15 +33,17 @@ RULE = ("(a) seeded SPD systems (size 1..30, cond 10..1e8, Gram / banded-with-ne
 BOUNDS = {"quick": "1500 systems x 5 warm-start modes + 3 solver entry points; 96 inversions x up to 10 settings",
           "thorough": "60000 systems; 6000 inversions"}
 EXHAUSTIVE = {"quick": False, "thorough": False}
-ASSUMPTIONS = ["when the settings force *every* parameter to zero the reduced system is empty and the code raises InversionException; counted as out of domain",
+ASSUMPTIONS = ["solutions are judged for scales >= 1e-7 (matrix scales 1e-6..1e14); optima of absolute size ~1e-14 hit the solver's absolute tolerance "
+               "2.2204e-16*n - a listed known finding exercised by the fixed 'tiny' unit",
+               "when the settings force *every* parameter to zero the reduced system is empty and the code raises InversionException; counted as out of domain",
                "KKT tolerance tau = 1e-9*(||A||2*||s||+||D||); backward error 1e-10 for the unconstrained solver",
-               "uniqueness cross-check against scipy.optimize.nnls only when cond(A) <= 1e8, with 1e-6*scale",
+               "uniqueness cross-check against scipy.optimize.nnls only when cond(A) <= 1e8, with (1e-6 + 1e-8*cond) relative to the solution size",
                "A and D are taken as reported by the inversion (decided by C04)",
                "check_reconstruction (all-identical-solution guard) is off in both configurations"]
 QUICK_JOBS = 16
 MIN_MONITORS = {"*": {"kkt.solver": 100, "kkt.solver.warm": 50, "backward.unconstrained": 10, "nnls.crosscheck": 20,
-                      "kkt.inversion": 20, "kkt.inversion.prod_defaults": 4, "forced_zero.exact": 4, "model_data.per_object": 10,
-                      "model_data.sum": 10, "path:warm_start_taken": 10, "path:fix_constraint_called": 1}}
+                      "kkt.inversion": 20, "kkt.inversion.prod_defaults": 4, "forced_zero.exact": 4, "forced_zero.via_image_pixels": 4, "model_data.per_object": 10,
+                      "model_data.sum": 10, "path:warm_start_taken": 10, "path:fix_constraint_called": 1, "kkt.solver.tiny_solution": 4}}
 
 
 def plan(tier, seed):
@@ -51,6 +53,7 @@ def plan(tier, seed):
     s2 = 3 if tier == "quick" else 15
     units = [{"kind": "sys", "start": s, "stop": min(ns, s + s1), "w": s1 * 0.05} for s in range(0, ns, s1)]
     units += [{"kind": "inv", "start": s, "stop": min(ni, s + s2), "w": s2} for s in range(0, ni, s2)]
+    units.append({"kind": "tiny", "w": 1})
     return units
 
 
@@ -111,11 +114,15 @@ def backward_error(A, D, s):
 
 
 def nnls_reference(A, D):
+    """scipy's NNLS has absolute tolerances of its own: it is run on the problem normalised to unit scale."""
     from scipy.optimize import nnls
-    L = np.linalg.cholesky(A)
-    b = np.linalg.solve(L, D)
+    a, d = float(np.abs(A).max()), float(np.abs(D).max())
+    if a == 0 or d == 0:
+        return np.zeros(len(D))
+    L = np.linalg.cholesky(A / a)
+    b = np.linalg.solve(L, D / d)
     s, _ = nnls(L.T, b, maxiter=50 * A.shape[0] + 200)
-    return s
+    return s * (d / a)
 
 
 def spd_system(rng):
@@ -169,6 +176,14 @@ def spd_system(rng):
         D[int(rng.integers(n))] = float(rng.uniform(0.05, 0.5))
     else:
         D = rng.normal(size=n) * np.exp(rng.uniform(-3, 3, size=n))
+    # units: the problem is invariant under A -> a*A, D -> a*b*D (solution -> b*solution); curvature matrices scale with
+    # 1/noise^2 (1e-8..1e14) and solutions with the flux unit. The solution scale stays >= 1e-7 here: far above the solver's
+    # absolute coefficient tolerance 2.2e-16*n (that regime is the separate known finding, unit "tiny").
+    if rng.random() < 0.5:
+        a = float(10.0 ** rng.uniform(-6, 14))
+        b = float(10.0 ** rng.uniform(-7, 3))
+        A, D = A * a, D * (a * b)
+        fam += "*scaled"
     return A, D, fam, rk
 
 
@@ -210,8 +225,9 @@ def run_system(ctx, i):
         ctx.check(ok, name, mode=mode, P_initial=P0, **det, **W)
         ctx.monitors["kkt.solver"] += 0 if mode == "empty" else 1
         if ref is not None and ok:
-            sc = max(1.0, float(np.abs(ref).max()))
-            ctx.check(float(np.abs(s - ref).max()) <= 1e-6 * sc, "nnls.crosscheck", mode=mode, got=s, scipy_nnls=ref, **W)
+            # both solutions satisfy the KKT conditions to ~1e-9 (backward); their distance is bounded by cond * that
+            sc = max(float(np.abs(ref).max()), float(np.abs(s).max()), 1e-300)
+            ctx.check(float(np.abs(s - ref).max()) <= (1e-6 + 1e-8 * cond) * sc, "nnls.crosscheck", mode=mode, got=s, scipy_nnls=ref, **W)
     # the two public solver entry points of inversion_util
     for warm in (False, True):
         st = aa.SettingsInversion(use_positive_only_solver=True, positive_only_uses_p_initial=warm)
@@ -242,7 +258,7 @@ def run_inversion(ctx, i):
     rng = gen.rng_for(ctx.seed, NO, 2, i)
     if not ctx.begin("inv:%d" % i):
         return
-    case = gen_aa.imaging_case(aa, rng, kshapes=(1, 3), max_unmasked=30)
+    case = gen_aa.imaging_case(aa, rng, kshapes=(1, 3), max_unmasked=30, noise_scale_range=(1e-7, 1e4))
     objs, desc = gen_aa.linear_objects(aa, rng, case, allow_unregularized=bool(rng.random() < 0.4))
     from harness.props.c04 import reference
     B, _, _, _ = reference(case, objs, 0.0)
@@ -251,11 +267,20 @@ def run_inversion(ctx, i):
     Wc = dict(mask=case["m"], kernel=case["k"], objects=desc, data_kind=case["data_kind"], noise_scale=case["noise_scale"])
     grid = [(False, False, True)] + [(True, w, f) for w in (False, True) for f in (False, True)]
     any_active = False
+    n_img = int((~case["m"]).sum())
+    zero_img = np.sort(rng.choice(n_img, size=max(1, n_img // 6), replace=False))
     for use_w in (False, True):
         for (pos, warm, force) in grid:
             st = aa.SettingsInversion(use_w_tilde=use_w, use_positive_only_solver=pos, positive_only_uses_p_initial=warm,
                                       force_edge_pixels_to_zeros=force, no_regularization_add_to_curvature_diag_value=1e-3)
             any_active |= check_inversion(ctx, case, objs, desc, st, B, offs, Wc, dict(w_tilde=use_w, positive=pos, warm=warm, force=force))
+        # second forcing mechanism of the settings: source pixels that receive flux from the selected image pixels are forced too
+        warm = bool(rng.integers(2))
+        st = aa.SettingsInversion(use_w_tilde=use_w, use_positive_only_solver=True, positive_only_uses_p_initial=warm,
+                                  force_edge_pixels_to_zeros=True, force_edge_image_pixels_to_zeros=True, image_pixels_source_zero=zero_img.copy(),
+                                  no_regularization_add_to_curvature_diag_value=1e-3)
+        any_active |= check_inversion(ctx, case, objs, desc, st, B, offs, Wc, dict(w_tilde=use_w, positive=True, warm=warm, force=True,
+                                                                                     image_pixels_source_zero=zero_img))
     # production defaults: settings left to the packaged configuration (positive-only solver with warm start)
     env.push_config("prod")
     try:
@@ -286,11 +311,25 @@ def check_inversion(ctx, case, objs, desc, st, B, offs, Wc, tag, monitor="kkt.in
     except Exception as e:
         ctx.check(False, monitor, settings=tag, exception=repr(e)[:300], **Wc)
         return False
+    if not np.isfinite(cond) or cond > 1e13:
+        # numerically singular F+H (e.g. an unregularised mapper whose 1e-3 diagonal is negligible next to F ~ 1/noise^2):
+        # outside "all symmetric positive-definite (F+H)"; counted, not judged
+        ctx.skipped["F+H numerically singular (cond > 1e13)"] += 1
+        return False
     try:
         s = _np(inv.reconstruction).copy()
     except aa.exc.InversionException as e:
         if tag["positive"]:
-            if tag["force"] and len(set(int(v) for v in inv.mapper_edge_pixel_list)) == len(D):
+            all_forced = len(set(int(v) for v in inv.mapper_edge_pixel_list)) == len(D)
+            if tag["force"] and tag.get("image_pixels_source_zero") is not None and not all_forced:
+                fz = np.zeros(len(D), bool)
+                fz[np.asarray(inv.mapper_edge_pixel_list, dtype=int)] = True
+                for o, d, lo in zip(objs, desc, offs[:-1]):
+                    if d.get("kind") != "func":
+                        Mo = np.asarray(o.mapping_matrix, float)
+                        fz[lo:lo + Mo.shape[1]] |= (Mo[np.asarray(tag["image_pixels_source_zero"], int)] != 0).any(0)
+                all_forced = bool(fz.all())
+            if tag["force"] and all_forced:
                 # every parameter is forced to zero (e.g. a Delaunay mesh whose vertices all lie on the hull): the reduced
                 # system is empty and there is nothing to be optimal; the statement speaks about "the remaining ones"
                 ctx.skipped["all_parameters_forced_to_zero:InversionException(empty reduced system)"] += 1
@@ -311,13 +350,21 @@ def check_inversion(ctx, case, objs, desc, st, B, offs, Wc, tag, monitor="kkt.in
         if tag["force"]:
             ids = np.asarray(inv.mapper_edge_pixel_list, dtype=int)
             forced[ids] = True
+            edge_forced = forced.copy()
+            if tag.get("image_pixels_source_zero") is not None:
+                # independent of mapper_zero_pixel_list: mapper parameters with a non-zero mapping from any selected image pixel
+                for o, d, lo in zip(objs, desc, offs[:-1]):
+                    if d.get("kind") != "func":
+                        Mo = np.asarray(o.mapping_matrix, float)
+                        forced[lo:lo + Mo.shape[1]] |= (Mo[np.asarray(tag["image_pixels_source_zero"], int)] != 0).any(0)
+                ctx.monitors["forced_zero.via_image_pixels"] += 1
             # rectangular meshes: the forced set must be the boundary cells of the mesh (independent of the neighbour code)
             for o, d, lo in zip(objs, desc, offs[:-1]):
                 if d.get("kind") == "rect":
                     sh = tuple(o.source_plane_mesh_grid.shape_native)
                     yy, xx = np.indices(sh)
                     boundary = ((yy == 0) | (yy == sh[0] - 1) | (xx == 0) | (xx == sh[1] - 1)).ravel()
-                    got = forced[lo:lo + boundary.size]
+                    got = edge_forced[lo:lo + boundary.size]
                     ctx.check(np.array_equal(got, boundary), "forced_zero.set_is_mesh_boundary", mesh_shape=sh, got=got, **Wc)
             ctx.check(bool(np.all(s[forced] == 0.0)), "forced_zero.exact", settings=tag, forced=np.flatnonzero(forced), s=s, **Wc)
             active |= bool(forced.any())
@@ -333,8 +380,9 @@ def check_inversion(ctx, case, objs, desc, st, B, offs, Wc, tag, monitor="kkt.in
             if okk and np.linalg.cond(Ar) <= 1e8:
                 try:
                     ref = nnls_reference(Ar, Dr)
-                    sc = max(1.0, float(np.abs(ref).max()))
-                    ctx.check(float(np.abs(s[free] - ref).max()) <= 1e-6 * sc, "nnls.crosscheck", settings=tag, got=s[free], scipy_nnls=ref, **Wc)
+                    sc = max(float(np.abs(ref).max()), float(np.abs(s[free]).max()), 1e-300)
+                    ctx.check(float(np.abs(s[free] - ref).max()) <= (1e-6 + 1e-8 * float(np.linalg.cond(Ar))) * sc, "nnls.crosscheck", settings=tag,
+                              got=s[free], scipy_nnls=ref, **Wc)
                 except Exception:
                     ctx.skipped["nnls_reference_failed"] += 1
     # per-object model data and their sum
@@ -360,7 +408,40 @@ def check_inversion(ctx, case, objs, desc, st, B, offs, Wc, tag, monitor="kkt.in
     return active
 
 
+def run_tiny(ctx):
+    """Known finding (known_findings.json, classifier c05_absolute_tolerance): the solver's coefficient / gradient tolerance is the
+    absolute number 2.2204e-16*n, so an optimum whose entries are of that size (here ~1e-14: A ~ 1e6, D ~ 1e-8) is truncated
+    to zero although it is the same problem, in other units, as one the solver gets right. The inputs are fixed (independent of
+    VERIF_SEED) so that the finding is exercised in every run; everything above that regime is judged by the other units."""
+    from autoarray.util.fnnls import fnnls_cholesky
+    for i in range(12):
+        if not ctx.begin("tiny:%d" % i):
+            continue
+        rng = gen.rng_for(0, NO, 9, i)
+        n = int(rng.integers(3, 12))
+        Z = rng.normal(size=(n + 5, n))
+        A0 = Z.T @ Z + 1e-6 * np.eye(n)
+        D0 = rng.normal(size=n)
+        ref0 = nnls_reference(A0, D0)
+        for (a, b, regime) in ((1.0, 1.0, "unit scale"), (1e6, 1e-14, "solution ~1e-14")):
+            A, D = A0 * a, D0 * (a * b)
+            abs_tol = 2.2204e-16 * n
+            for mode, P0 in (("empty", np.zeros(0, dtype=int)), ("production_rule", np.linalg.solve(A, D) > 0)):
+                try:
+                    s = fnnls_cholesky(A.copy(), D.copy(), P_initial=P0)
+                    ok, det = kkt(A, D, s)
+                except Exception as e:
+                    ok, det = False, {"exception": repr(e)[:200]}
+                below = bool(float(ref0.max() * b) <= 1e3 * abs_tol)
+                ctx.check(ok, "kkt.solver.tiny_solution" if below else "kkt.solver", mode=mode, regime=regime, n=n, reference_max=float(ref0.max() * b),
+                          abs_tolerance=abs_tol, solution_scale_below_absolute_tolerance=below, returned_max=float(np.max(s)) if ok is not None and "s" in det else None,
+                          A=A if n <= 4 else "n=%d" % n)
+        ctx.case("tiny", A0, D0, nontrivial=True, cls=["tiny_solution_regime"], sample=None)
+
+
 def run_unit(ctx, u):
+    if u["kind"] == "tiny":
+        return run_tiny(ctx)
     if u["kind"] == "sys":
         for i in range(u["start"], u["stop"]):
             run_system(ctx, i)
